@@ -199,6 +199,10 @@ def run(per_type, seed, with_lean=True):
                     divs.append({"kind": "prost-vs-extracted-schema", "type": k, "hex": hx, "prost": r,
                                  "fields": schema["messages"][k]["fields"]})
                     break
+                if "to_bytes" in r and r["to_bytes"] != r.get("ok"):
+                    divs.append({"kind": "to_bytes-vs-prost", "witness": True, "type": k, "hex": hx, "to_bytes": r["to_bytes"][:200],
+                                 "what": "MessageExt::to_bytes of %s returns %s..., prost encodes the same value as %s" % (k, r["to_bytes"][:60], hx[:60])})
+                    break
                 if d is not None and i < 2:
                     lr = d.call({"op": "wire_roundtrip", "hex": hx})
                     stats["lean_wire_roundtrips"] += 1
@@ -260,7 +264,7 @@ def run(per_type, seed, with_lean=True):
             if want != u:
                 divs.append({"kind": "type_url_not_canonical", "witness": True, "type": k, "url": u, "canonical": want,
                              "what": "the compiled TYPE_URL of %s is %r; the fully-qualified protobuf name gives %r" % (k, u, want)})
-            if "ok" not in r or r["ok"]["unpacked"] != b.hex() or r["ok"]["type_url"] != u:
+            if "ok" not in r or r["ok"]["unpacked"] != b.hex() or r["ok"]["type_url"] != u or r["ok"].get("value", b.hex()) != b.hex():
                 divs.append({"kind": "any_roundtrip", "witness": True, "hex": b.hex(), "type": k, "detail": r})
             r2 = h.call({"op": "proto", "fn": "any", "type": k, "hex": b.hex(), "url": (u or "") + "X"})
             if "err" not in r2 or r2["err"]["kind"] != "TypeUrl":
